@@ -123,7 +123,7 @@ Theorem m_run_total (A : automaton mkey cpredicate) rk ids h :
 Proof.
   intros W HAR HNN. pose proof (wf_check_sound matrix_dom matrix_dom_eq A rk ids W) as HWF.
   destruct (wf_acyclic _ _ _ HWF) as [rank Hrank].
-  apply (run_total_gen matrix_dom A ids HWF HAR h mm_wf (Nat.max 1 (ncells h)) I (fun _ => True)) with (rank := rank); auto.
+  apply (run_total_gen matrix_dom A ids HWF HAR h mm_wf mm_wf (fun _ Hm => Hm) (Nat.max 1 (ncells h)) I (fun _ => True)) with (rank := rank); auto.
   - intros m ks inc Hm _. now apply m_bind_all_total.
   - intros st m Hst Hm. apply m_retain_total_ord; auto.
     + apply (wf_scope_ordered _ _ _ HWF st Hst).
